@@ -294,11 +294,15 @@ func mutate(r *hlib.Rand, src string) (string, string) {
 	labels := []string(nil)
 	for i := 0; i < n; i++ {
 		var lab string
-		switch r.Intn(10) {
+		switch r.Intn(11) {
 		case 0, 1, 2, 3, 4:
 			l, lab = mutateToken(r, l)
 		case 5, 6:
 			l, lab = mutateLine(r, l)
+		case 7:
+			var txt string
+			txt, lab = mutateBytes(r, joinLexemes(l))
+			l = splitLexemes(txt)
 		default:
 			l, lab = mutateTree(r, l)
 		}
